@@ -27,7 +27,7 @@ def expect_ref(W, order, kind_, rw, host_big):
 
 def fmt_bit(b):
     if b is TOP:
-        return 'TOP'
+        return 'not a copy of input bits (value conversion or other non-bitwise operation)'
     if not b[1]:
         return str(b[0])
     return ('~' if b[0] else '') + '^'.join(sorted(b[1]))
